@@ -88,6 +88,7 @@ Proof.
   destruct (is_absolute n) eqn:E.
   - injection H as <-. auto.
   - destruct o as [o|]; [|discriminate]. destruct (is_absolute o) eqn:Eo; [|discriminate].
+    destruct (wire_length n + wire_length o >? 255); [discriminate|].
     injection H as <-. rewrite app_length. specialize (Habs o Eo). lia.
 Qed.
 
